@@ -54,8 +54,21 @@ func (fr *faultRun) done() {
 // serix Decode (with and without validation) on every zoo type; with the re-encode oracle this is
 // also the reverse direction of C03.
 
-func faultSerixBody(s *simrt.Sim) { serixLeg(s, false) }
-func reencodeBody(s *simrt.Sim)   { serixLeg(s, true) }
+func faultSerixBody(s *simrt.Sim) {
+	if s.Choose(12) == 11 {
+		oddDecode(s)
+		return
+	}
+	serixLeg(s, false)
+}
+
+func reencodeBody(s *simrt.Sim) {
+	if s.Choose(12) == 11 {
+		oddRules(s)
+		return
+	}
+	serixLeg(s, true)
+}
 
 func serixLeg(s *simrt.Sim, reencode bool) {
 	e := zoo[s.Choose(len(zoo))]
@@ -1039,4 +1052,95 @@ func violate(s *simrt.Sim, n *node, v *val) string {
 		return "slice-above-max"
 	}
 	return ""
+}
+
+// ---------------------------------------------------------------------------------------------
+// oddtypes: hand-made images for the odd registrations of zoo.go (they are not part of the modelled zoo).
+
+// oddDecode (C02): the decoders return - no panic, no more consumed bytes than supplied, no work in proportion to a
+// count the input cannot hold.
+func oddDecode(s *simrt.Sim) {
+	var st probeStats
+	switch s.Choose(3) {
+	case 0:
+		// a count far above what the input can hold, in front of 0..3 well-formed elements (an element with both fields
+		// absent is two uint32 zeros); the input ends at an element boundary
+		nel := s.Choose(4)
+		count := uint32(1000000 + s.Choose(1000))
+		if s.Choose(4) == 0 {
+			count = uint32(nel) // the honest image, for contrast
+		}
+		in := []byte{byte(count), byte(count >> 8), byte(count >> 16), byte(count >> 24)}
+		for i := 0; i < nel; i++ {
+			in = append(in, 0, 0, 0, 0, 0, 0, 0, 0)
+		}
+		validate := s.Choose(2) == 1
+		var out OptOnlys
+		n, ok := probe(s, &st, "serix.Decode", "inflated-count", fmt.Sprintf("OptOnlys count=%d elements=%d validate=%v", count, nel, validate), in, true, func() (int, bool) {
+			var n int
+			var err error
+			s.Atomic(func() { n, err = api.Decode(ctx, in, &out, valOpts(validate)...) })
+			return n, err == nil
+		})
+		s.Logf("OptOnlys count=%d elements=%d -> n=%d ok=%v len=%d", count, nel, n, ok, len(out))
+		if ok && len(out) > len(in) {
+			s.Fail("decode-total", "more-elements-than-input-bytes:serix.Decode:inflated-count", "Decode of %d bytes (count prefix %d, %d elements present) succeeded with %d elements", len(in), count, nel, len(out))
+		}
+	default:
+		// JSON: null where a pointer to a validated struct, or an element of a slice with a must-occur rule, is expected
+		docs := []string{`{"p":null,"ptrs":[]}`, `{"ptrs":[null]}`, `{"ptrs":[{"type":5,"v":1},null]}`, `{"p":null,"ptrs":[null,null]}`, `{"p":{"type":5,"v":3},"ptrs":[{"type":5,"v":1}]}`}
+		doc := docs[s.Choose(len(docs))]
+		validate := s.Choose(3) != 0
+		var out Boxed
+		var err error
+		_, ok := probe(s, &st, "serix.JSONDecode", "null-for-pointer", fmt.Sprintf("%s validate=%v", doc, validate), []byte(doc), false, func() (int, bool) {
+			s.Atomic(func() { err = api.JSONDecode(ctx, []byte(doc), &out, valOpts(validate)...) })
+			return 0, err == nil
+		})
+		s.Logf("JSONDecode(%s, validate=%v) -> ok=%v err=%v", doc, validate, ok, err)
+	}
+}
+
+// oddRules (C03): images of rule-carrying odd types. Whatever the validating decoder accepts re-encodes, with
+// validation, to exactly the accepted bytes.
+func oddRules(s *simrt.Sim) {
+	n := s.Choose(5)
+	var in []byte
+	var dst any
+	var what string
+	if s.Choose(2) == 0 {
+		what = "flags"
+		in = []byte{byte(n)}
+		for i := 0; i < n; i++ {
+			in = append(in, byte(s.Choose(6)))
+		}
+		dst = &Flags{}
+	} else {
+		what = "lexpairs"
+		in = []byte{byte(n)}
+		for i := 0; i < n; i++ {
+			in = append(in, byte(s.Choose(4)), byte(s.Choose(4)))
+		}
+		dst = &LexPairs{}
+	}
+	var k int
+	var err error
+	if panicked, _ := hx.Try(func() { s.Atomic(func() { k, err = api.Decode(ctx, in, dst, valOpts(true)...) }) }); panicked {
+		s.Probe("decode-panicked(see C02)")
+		return
+	}
+	s.Logf("%s image %x -> n=%d err=%v", what, in, k, err)
+	if err != nil {
+		s.Probe("odd-image-rejected:" + what)
+		return
+	}
+	s.Probe("odd-image-accepted:" + what)
+	var back []byte
+	s.Atomic(func() { back, err = api.Encode(ctx, reflect.ValueOf(dst).Elem().Interface(), valOpts(true)...) })
+	if err != nil {
+		s.Fail("canonical-decode", "reencode-rejected:"+what, "validating Decode accepted the %s image %x (n=%d) but validating Encode of the decoded value fails: %v", what, in, k, err)
+	}
+	if !bytes.Equal(back, in[:k]) {
+		s.Fail("canonical-decode", "reencode-differs:"+what, "validating Decode accepted the %s image %x (n=%d); validating Encode of the decoded value gives %x", what, in, k, back)
+	}
 }
